@@ -3,7 +3,7 @@
 
 use super::c05_oracle::{Book, Expect, pat_fill};
 use super::c05_peers::*;
-use super::{ConnOut, Cx, Op, ScenarioOut, path_of, pick_len, size_class};
+use super::{ConnOut, Cx, MedEvidence, Op, ScenarioOut, WINDOW, med_split, med_sums, path_of, path_of_op, pick_len, size_class};
 use crate::common::*;
 use serde_json::json;
 use std::sync::Arc;
@@ -11,11 +11,11 @@ use std::sync::atomic::Ordering::SeqCst;
 use std::time::Duration;
 
 fn expect_of(op: &Op) -> Expect {
-    Expect { token: op.token, kind: if op.notify { "client notify" } else { "client call request" }, notify: op.notify as u8, query: path_of(op.token).into_bytes(), body_len: op.len, fixed_id: None }
+    Expect { token: op.token, kind: if op.notify { "client notify" } else { "client call request" }, notify: op.notify as u8, query: path_of_op(op).into_bytes(), body_len: op.len, fixed_id: None }
 }
 
 fn frame_len(op: &Op) -> u64 {
-    (48 + path_of(op.token).len() + op.len) as u64
+    (48 + path_of_op(op).len() + op.len) as u64
 }
 
 struct Gen {
@@ -27,12 +27,12 @@ impl Gen {
     }
     fn op(&mut self, notify: bool, len: usize) -> Op {
         self.next += 1;
-        Op { token: self.next, notify, len }
+        Op { token: self.next, notify, len, qpad: 0 }
     }
     fn sized(&mut self, rng: &mut Rng, left: &mut usize, thorough: bool) -> Op {
         self.next += 1;
         let qlen = path_of(self.next).len();
-        Op { token: self.next, notify: rng.chance(3, 5), len: pick_len(rng, qlen, left, thorough) }
+        Op { token: self.next, notify: rng.chance(3, 5), len: pick_len(rng, qlen, left, thorough), qpad: 0 }
     }
 }
 
@@ -56,7 +56,7 @@ fn stall_plan(rng: &mut Rng, total: u64) -> Vec<(u64, u64)> {
 
 fn run_op_blocking(c: &repe::Client, op: &Op, call_timeout: Duration) -> Result<(), String> {
     let body = pat_fill(op.token, op.len);
-    let path = path_of(op.token);
+    let path = path_of_op(op);
     if op.notify {
         c.notify_with_formats(&path, 1, Some(&body), 0).map_err(|e| e.to_string())
     } else {
@@ -271,7 +271,7 @@ impl AClient {
     }
     async fn run_op(&self, op: &Op, call_timeout: Duration) -> Result<(), String> {
         let body = pat_fill(op.token, op.len);
-        let path = path_of(op.token);
+        let path = path_of_op(op);
         match (self, op.notify) {
             (AClient::Tcp(c), true) => c.notify_with_formats(&path, 1, Some(&body), 0).await.map_err(|e| e.to_string()),
             (AClient::Tcp(c), false) => c.call_with_formats_and_timeout(&path, 1, Some(&body), 0, call_timeout).await.map(|_| ()).map_err(|e| e.to_string()),
@@ -496,6 +496,374 @@ pub fn aclient_cancel(cx: &Cx, rng: &mut Rng, kind: AKind) -> ScenarioOut {
     let (record, end, tr) = peer.finish(cx.rt, &ctl, Duration::from_secs(10), 300);
     out.trouble.extend(tr);
     out.conns.push(ConnOut { label: "conn0".into(), book, must_see: must, record, end, victim: Some(big.token) });
+    out
+}
+
+// ------------------------------------------------------------------------------------------------
+// MEDIUM-frame streams: the pipe of a stalled peer is filled by back-to-back frames whose sizes
+// straddle the 8 KiB write buffer until a write is interrupted; more sends while still stalled; the
+// peer drains; FURTHER traffic.
+
+impl Gen {
+    fn medium(&mut self, rng: &mut Rng, sum: usize) -> Op {
+        self.next += 1;
+        let base = path_of(self.next).len();
+        let (q, b) = med_split(rng, sum, base);
+        // one padding byte is not expressible ("/" + n-1 bytes, n >= 1 is fine; 0 = none)
+        Op { token: self.next, notify: true, len: b, qpad: q - base }
+    }
+}
+
+fn sum_of(op: &Op) -> usize {
+    path_of_op(op).len() + op.len
+}
+
+fn further_ops(rng: &mut Rng, g: &mut Gen) -> Vec<Op> {
+    let w = 8145 + rng.usize_below(48);
+    let mut v = vec![g.op(true, rng.usize_below(200)), g.medium(rng, w), g.op(false, rng.usize_below(2000)), g.op(true, 8000 + rng.usize_below(400)), g.op(true, 20_000 + rng.usize_below(20_000))];
+    if rng.coin() {
+        v.swap(0, 1);
+    }
+    v
+}
+
+/// Blocking client with `set_write_timeout`: 1..3 clones stream medium notifies back-to-back to a
+/// stalled peer until a write times out; `extra` more sends are attempted while the peer is still
+/// stalled (other threads / a retrying caller); then the peer drains and the client is used further.
+pub fn client_medium_stream(cx: &Cx, rng: &mut Rng) -> ScenarioOut {
+    let mut out = ScenarioOut::new("client", "write_timeout", "client.write_timeout.medium_stream");
+    let mut g = Gen::new(rng);
+    let rcvbuf = *rng.pick(&[32768usize, 65536, 131072]);
+    let t_ms = rng.range(70, 160);
+    let writers = 1 + rng.usize_below(3);
+    let extra = *rng.pick(&[0u64, 1, 1, 2, 2, 3, 4]);
+    let x = rng.below(30_000);
+    // the client's own send buffer autotunes up to tcp_wmem max (4 MiB by default): enough frames to exceed it
+    let n = if cx.thorough { 2600 } else { 1500 };
+    let warm: Vec<Op> = (0..1 + rng.usize_below(3)).map(|_| { let l = rng.usize_below(9000); g.op(rng.coin(), l) }).collect();
+    let sums = med_sums(rng, n);
+    let stream: Vec<Op> = sums.iter().map(|s| g.medium(rng, *s)).collect();
+    let further = further_ops(rng, &mut g);
+    out.ident = hash_of(&("medium", rcvbuf, writers, extra, x / 8192, sums[..16].to_vec()));
+    out.params = json!({"peer_rcvbuf": rcvbuf, "write_timeout_ms": t_ms, "concurrent_clones_streaming": writers, "sends_attempted_after_first_timeout_while_stalled": extra,
+        "peer_stalls_after_bytes_of_stream": x, "stream_frames_available": n, "warmup_ops": warm.len(), "further_ops": further.len()});
+    let mut book = Book::default();
+    warm.iter().chain(&stream).chain(&further).for_each(|o| book.add_by_query(expect_of(o)));
+    let ctl = Ctl::new();
+    let (addr, peer) = match start_client_peer(cx.rt, false, Some(rcvbuf), ctl.clone(), rng.fork(1), max_wall(cx)) {
+        Ok(x) => x,
+        Err(e) => {
+            out.trouble.push(format!("peer listen: {e}"));
+            return out;
+        }
+    };
+    let mut must = vec![];
+    let mut med = MedEvidence::default();
+    let mut victim = None;
+    let mut body = || -> Result<(), String> {
+        let client = repe::Client::connect(addr).map_err(|e| format!("connect: {e}"))?;
+        client.set_write_timeout(Some(Duration::from_millis(t_ms))).map_err(|e| format!("set_write_timeout: {e}"))?;
+        for op in &warm {
+            let r = run_op_blocking(&client, op, Duration::from_secs(30));
+            out.note_result(&r);
+            if r.is_ok() {
+                must.push(op.token);
+            } else {
+                return Err(format!("warm-up op failed: {r:?}"));
+            }
+        }
+        let b0: u64 = warm.iter().map(frame_len).sum();
+        if !wait_until(Duration::from_secs(10), || ctl.bytes.load(SeqCst) == b0) {
+            return Err(format!("peer recorded {} bytes after warm-up, expected {b0}", ctl.bytes.load(SeqCst)));
+        }
+        ctl.hold_at(b0 + x);
+        let failures = Arc::new(std::sync::atomic::AtomicU64::new(0));
+        let order = Arc::new(std::sync::atomic::AtomicU64::new(0));
+        let hs: Vec<_> = (0..writers)
+            .map(|wi| {
+                let c = client.clone();
+                let mine: Vec<Op> = stream.iter().skip(wi).step_by(writers).cloned().collect();
+                let (failures, order) = (failures.clone(), order.clone());
+                std::thread::spawn(move || {
+                    let mut v = vec![];
+                    for op in &mine {
+                        if failures.load(SeqCst) > extra {
+                            break;
+                        }
+                        let seq = order.fetch_add(1, SeqCst);
+                        let after = failures.load(SeqCst) > 0;
+                        let r = run_op_blocking(&c, op, Duration::from_secs(1));
+                        if r.is_err() {
+                            failures.fetch_add(1, SeqCst);
+                        }
+                        v.push((seq, after, op.clone(), r));
+                    }
+                    v
+                })
+            })
+            .collect();
+        let mut all = vec![];
+        for h in hs {
+            match join_bounded(h, Duration::from_secs(60)) {
+                Some(v) => all.extend(v),
+                None => out.trouble.push("a streaming writer did not return in 60 s".into()),
+            }
+        }
+        all.sort_by_key(|x| x.0);
+        for (_, after, op, r) in &all {
+            out.note_result(r);
+            med.stream_sums.push(sum_of(op));
+            if *after {
+                med.sends_after_first_interruption += 1;
+            }
+            match r {
+                Ok(()) => must.push(op.token),
+                Err(_) => {
+                    if victim.is_none() {
+                        victim = Some(op.token);
+                        med.frames_before_interruption = med.stream_sums.len() as u64 - 1;
+                    }
+                    med.interrupted_sums.push(sum_of(op));
+                }
+            }
+        }
+        if std::env::var_os("C05_DEBUG_MED").is_some() {
+            for (seq, after, op, r) in &all {
+                if *after || r.is_err() {
+                    eprintln!("   seq={seq} after={after} q={} b={} sum={} -> {:?}", path_of_op(op).len(), op.len, sum_of(op), r);
+                }
+            }
+        }
+        out.fault_triggered = Some(victim.is_some());
+        if victim.is_none() {
+            out.trouble.push(format!("no write timed out although {} medium frames were streamed to the stalled peer", all.len()));
+        }
+        // the peer drains everything ...
+        ctl.release();
+        wait_quiet(&ctl, Duration::from_millis(150), Duration::from_secs(15));
+        // ... and the application keeps using the same client
+        for op in &further {
+            let r = run_op_blocking(&client, op, Duration::from_millis(400));
+            out.note_result(&r);
+            match &r {
+                Ok(()) => {
+                    out.further_ok += 1;
+                    must.push(op.token);
+                }
+                Err(_) => out.further_err += 1,
+            }
+        }
+        wait_quiet(&ctl, Duration::from_millis(100), Duration::from_secs(10));
+        drop(client);
+        Ok(())
+    };
+    if let Err(e) = body() {
+        out.trouble.push(e);
+    }
+    ctl.release();
+    let (record, end, tr) = peer.finish(cx.rt, &ctl, Duration::from_secs(10), 300);
+    out.trouble.extend(tr);
+    out.params["frames_before_first_timeout"] = json!(med.frames_before_interruption);
+    out.params["interrupted_frames_query_plus_body"] = json!(med.interrupted_sums);
+    out.params["interrupted_in_window"] = json!(med.interrupted_sums.iter().filter(|s| WINDOW.contains(s)).count());
+    out.med = Some(med);
+    out.conns.push(ConnOut { label: "conn0".into(), book, must_see: must, record, end, victim });
+    out
+}
+
+/// AsyncClient / WebSocketClient: tasks stream medium notifies to a stalled peer until the pipe is
+/// full and a send is stuck mid-frame; that send is abandoned (JoinHandle::abort, or a
+/// tokio::time::timeout wrapper around every send); `extra` more sends (each under a timeout
+/// wrapper) are attempted while still stalled; then the peer drains and the client is used further.
+pub fn aclient_medium_stream(cx: &Cx, rng: &mut Rng, kind: AKind) -> ScenarioOut {
+    let ep = ep_name(kind);
+    let mut out = ScenarioOut::new(ep, "cancel_mid_send", &format!("{ep}.cancel_mid_send.medium_stream"));
+    let mut g = Gen::new(rng);
+    let rcvbuf = *rng.pick(&[32768usize, 65536, 131072]);
+    let variant_abort = rng.coin();
+    let t_ms = rng.range(70, 160);
+    let writers = 1 + rng.usize_below(3);
+    let extra = *rng.pick(&[0u64, 1, 1, 2, 2, 3, 4]);
+    // WebSocket peers see whole messages only: they stop reading before the stream
+    let x = if kind == AKind::Ws { 0 } else { rng.below(30_000) };
+    let n = if cx.thorough { 2600 } else { 1500 };
+    let warm: Vec<Op> = (0..1 + rng.usize_below(3)).map(|_| { let l = rng.usize_below(9000); g.op(rng.coin(), l) }).collect();
+    let sums = med_sums(rng, n);
+    let stream: Vec<Op> = sums.iter().map(|s| g.medium(rng, *s)).collect();
+    let further = further_ops(rng, &mut g);
+    out.ident = hash_of(&("medium", rcvbuf, writers, extra, x / 8192, variant_abort, sums[..16].to_vec()));
+    out.params = json!({"peer_rcvbuf": rcvbuf, "cancel": if variant_abort {"JoinHandle::abort of the stuck streaming tasks"} else {"tokio::time::timeout wrapper around every send"},
+        "send_timeout_ms": t_ms, "concurrent_tasks_streaming": writers, "sends_attempted_after_first_cancel_while_stalled": extra,
+        "peer_stalls_after_bytes_of_stream": x, "stream_frames_available": n, "warmup_ops": warm.len(), "further_ops": further.len()});
+    let mut book = Book::default();
+    warm.iter().chain(&stream).chain(&further).for_each(|o| book.add_by_query(expect_of(o)));
+    let ctl = Ctl::new();
+    let (addr, peer) = match start_client_peer(cx.rt, kind == AKind::Ws, Some(rcvbuf), ctl.clone(), rng.fork(1), max_wall(cx)) {
+        Ok(x) => x,
+        Err(e) => {
+            out.trouble.push(format!("peer listen: {e}"));
+            return out;
+        }
+    };
+    let mut must = vec![];
+    let mut med = MedEvidence::default();
+    let mut victim = None;
+    // per submitted op: (sequence, sent after the first interruption, op, None = abandoned in flight)
+    type Slot = (u64, bool, Op, Option<Result<(), String>>);
+    let res: Result<(), String> = cx.rt.block_on(async {
+        let client = AClient::connect(kind, addr, true).await.map_err(|e| format!("connect: {e}"))?;
+        for op in &warm {
+            let r = client.run_op(op, Duration::from_secs(30)).await;
+            out.note_result(&r);
+            if r.is_ok() {
+                must.push(op.token);
+            } else {
+                return Err(format!("warm-up op failed: {r:?}"));
+            }
+        }
+        let b0: u64 = warm.iter().map(frame_len).sum();
+        if !wait_until_async(Duration::from_secs(10), || ctl.bytes.load(SeqCst) == b0).await {
+            return Err(format!("peer recorded {} bytes after warm-up, expected {b0}", ctl.bytes.load(SeqCst)));
+        }
+        ctl.hold_at(b0 + x);
+        if x == 0 && !wait_until_async(Duration::from_secs(10), || ctl.stalled.load(SeqCst)).await {
+            return Err("peer did not acknowledge the stall".into());
+        }
+        let failures = Arc::new(std::sync::atomic::AtomicU64::new(0));
+        let order = Arc::new(std::sync::atomic::AtomicU64::new(0));
+        let progress = Arc::new(std::sync::atomic::AtomicU64::new(0));
+        let log: Arc<std::sync::Mutex<Vec<Slot>>> = Arc::new(std::sync::Mutex::new(vec![]));
+        // with the abort variant the streaming tasks send bare (they get stuck); `extra` sends follow from a second phase
+        let hs: Vec<_> = (0..writers)
+            .map(|wi| {
+                let c = client.clone();
+                let mine: Vec<Op> = stream[..n - 8].iter().skip(wi).step_by(writers).cloned().collect();
+                let (failures, order, progress, log) = (failures.clone(), order.clone(), progress.clone(), log.clone());
+                tokio::spawn(async move {
+                    for op in mine {
+                        if failures.load(SeqCst) > if variant_abort { 0 } else { extra } {
+                            break;
+                        }
+                        let seq = order.fetch_add(1, SeqCst);
+                        let after = failures.load(SeqCst) > 0;
+                        let idx = {
+                            let mut l = log.lock().unwrap();
+                            l.push((seq, after, op.clone(), None));
+                            l.len() - 1
+                        };
+                        let r = if variant_abort {
+                            Some(c.run_op(&op, Duration::from_secs(30)).await)
+                        } else {
+                            tokio::time::timeout(Duration::from_millis(t_ms), c.run_op(&op, Duration::from_secs(30))).await.ok()
+                        };
+                        progress.fetch_add(1, SeqCst);
+                        if !matches!(r, Some(Ok(()))) {
+                            failures.fetch_add(1, SeqCst);
+                        }
+                        log.lock().unwrap()[idx].3 = r;
+                    }
+                })
+            })
+            .collect();
+        if variant_abort {
+            // stuck = the peer is stalled and no send completed for a while (pipe full, a writer parked mid-frame)
+            let mut last = (progress.load(SeqCst), std::time::Instant::now());
+            let t0 = std::time::Instant::now();
+            loop {
+                tokio::time::sleep(Duration::from_millis(5)).await;
+                let p = progress.load(SeqCst);
+                if p != last.0 {
+                    last = (p, std::time::Instant::now());
+                }
+                let all_done = hs.iter().all(|h| h.is_finished());
+                if all_done || (ctl.stalled.load(SeqCst) && last.1.elapsed() >= Duration::from_millis(t_ms)) || t0.elapsed() > Duration::from_secs(30) {
+                    break;
+                }
+            }
+            for h in &hs {
+                h.abort();
+            }
+            failures.fetch_add(1, SeqCst);
+        }
+        for h in hs {
+            match tokio::time::timeout(Duration::from_secs(60), h).await {
+                Ok(_) => {}
+                Err(_) => out.trouble.push("a streaming task did not end in 60 s".into()),
+            }
+        }
+        if variant_abort {
+            // more sends while the peer is still stalled, each abandoned by a timeout wrapper if it gets stuck
+            // (the last 8 frames of the list are reserved for this phase: never handed to a streaming task)
+            for op in stream[n - 8..].iter().take(extra as usize) {
+                let seq = order.fetch_add(1, SeqCst);
+                let r = tokio::time::timeout(Duration::from_millis(t_ms), client.run_op(op, Duration::from_secs(30))).await.ok();
+                log.lock().unwrap().push((seq, true, op.clone(), r));
+            }
+        }
+        let mut all: Vec<Slot> = std::mem::take(&mut *log.lock().unwrap());
+        all.sort_by_key(|x| x.0);
+        for (_, after, op, r) in &all {
+            med.stream_sums.push(sum_of(op));
+            if *after {
+                med.sends_after_first_interruption += 1;
+            }
+            match r {
+                Some(Ok(())) => {
+                    out.ops_ok += 1;
+                    must.push(op.token);
+                }
+                other => {
+                    if let Some(r) = other {
+                        out.note_result(r);
+                    }
+                    if other.is_none() && victim.is_none() {
+                        victim = Some(op.token);
+                        med.frames_before_interruption = med.stream_sums.len() as u64 - 1;
+                    }
+                    if other.is_none() {
+                        med.interrupted_sums.push(sum_of(op));
+                    }
+                }
+            }
+        }
+        out.fault_triggered = Some(victim.is_some());
+        if victim.is_none() {
+            out.trouble.push(format!("no send was abandoned in flight although {} medium frames were streamed to the stalled peer", all.len()));
+        }
+        // the peer drains everything
+        ctl.release();
+        wait_quiet_async(&ctl, Duration::from_millis(150), Duration::from_secs(15)).await;
+        // FURTHER traffic on the same client
+        for op in &further {
+            let r = match tokio::time::timeout(Duration::from_secs(10), client.run_op(op, Duration::from_millis(400))).await {
+                Ok(r) => r,
+                Err(_) => Err("further op did not return in 10 s".to_string()),
+            };
+            out.note_result(&r);
+            match &r {
+                Ok(()) => {
+                    out.further_ok += 1;
+                    must.push(op.token);
+                }
+                Err(_) => out.further_err += 1,
+            }
+        }
+        wait_quiet_async(&ctl, Duration::from_millis(100), Duration::from_secs(10)).await;
+        drop(client);
+        tokio::task::yield_now().await;
+        Ok(())
+    });
+    if let Err(e) = res {
+        out.trouble.push(e);
+    }
+    ctl.release();
+    let (record, end, tr) = peer.finish(cx.rt, &ctl, Duration::from_secs(10), 300);
+    out.trouble.extend(tr);
+    out.params["frames_before_first_cancel"] = json!(med.frames_before_interruption);
+    out.params["interrupted_frames_query_plus_body"] = json!(med.interrupted_sums);
+    out.params["interrupted_in_window"] = json!(med.interrupted_sums.iter().filter(|s| WINDOW.contains(s)).count());
+    out.med = Some(med);
+    out.conns.push(ConnOut { label: "conn0".into(), book, must_see: must, record, end, victim });
     out
 }
 
